@@ -40,7 +40,7 @@ UNPROVEN = ['fields and segment phasors with exactly one element are outside the
             'Rotate/Flip.multiply raise AttributeError (open known finding of C08)',
             'the plane-type admission test of Plane.multiply (C08) and tilt bookkeeping (C04) are not part of this model',
             'the constructor\'s mask normalisation (mask != 0, mask=None -> amplitude) is applied by the harness before the model sees the plane (Plane.__init__ is pinned)']
-ASSUMPTIONS = ['every segment bounding box and every intermediate field has more than one element (this includes a propagation window of a single output sample: with two or more fields Wavefront.intensity then raises ValueError in field._merge — reported)',
+ASSUMPTIONS = ['every segment bounding box and every intermediate field that is multiplied by a further plane has more than one element (a propagation window of a single output sample is generated: the views of one-element fields are defined since the repo fix of _merge_shape)',
                'attribute arrays have the shape of the mask (otherwise NumPy raises or broadcasts; malformed input)']
 
 WL_GI = 2.0 ** -20      # k*WL_GI/4 is exact in float64
@@ -345,8 +345,7 @@ def gen_pchain(rng):
         if osh[0] * osh[1] * os_ * os_ < 4: continue
         n_img = int(rng.integers(0, 3))
         psh = None
-        if n_img == 0 and rng.integers(0, 2): psh = [int(rng.integers(1, osh[0] + 1)), int(rng.integers(1, osh[1] + 1))]
-        if psh and psh[0] * psh[1] * os_ * os_ == 1: continue          # one-sample propagation window: one-element scope (see ASSUMPTIONS)
+        if n_img == 0 and rng.integers(0, 2): psh = [1, 1] if rng.integers(0, 4) == 0 else [int(rng.integers(1, osh[0] + 1)), int(rng.integers(1, osh[1] + 1))]
         els.append({'kind': 'propagate', 'dx': dx, 'du': du, 'os': os_, 'shape': osh, 'prop_shape': psh})
         so = (osh[0] * os_, osh[1] * os_)
         px2 = [du[0] / os_, du[1] / os_]
